@@ -229,6 +229,10 @@ func runC14(c *core.Ctx) {
 				for i, j := range p {
 					out[i] = set[j]
 				}
+				// now and then the same channel is listed twice (still the same set)
+				if len(out) > 0 && r.Chance(1, 6) {
+					out = append(out, out[r.Intn(len(out))])
+				}
 				return out
 			}
 			limit := 12
